@@ -316,6 +316,11 @@ func (i *Interpreter) ProcessInfixExpression(exp *ast.InfixExpression, opt *Expr
 	if err != nil {
 		return value.Null, errors.WithStack(err)
 	}
+	// Logical operators are short-circuit: when the left expression decides the result
+	// the right expression is not evaluated (e.g. it does not overwrite re.group.N)
+	if decided, ok := shortCircuit(exp.Operator, left); ok {
+		return decided, nil
+	}
 	right, err := i.processExpression(exp.Right, opt)
 	if err != nil {
 		return value.Null, errors.WithStack(err)
@@ -358,6 +363,33 @@ func (i *Interpreter) ProcessInfixExpression(exp *ast.InfixExpression, opt *Expr
 	}
 
 	return result, nil
+}
+
+// shortCircuit reports the result of a logical operator which is decided by its left value alone.
+// Left values which the operator itself does not accept are left to operator.LogicalAnd/LogicalOr.
+func shortCircuit(op string, left value.Value) (value.Value, bool) {
+	if op != "&&" && op != "||" {
+		return nil, false
+	}
+	var truthy bool
+	switch t := left.(type) {
+	case *value.Boolean:
+		truthy = t.Value
+	case *value.String:
+		if t.IsLiteral() {
+			return nil, false
+		}
+		truthy = !t.IsNotSet
+	default:
+		return nil, false
+	}
+	switch {
+	case op == "&&" && !truthy:
+		return &value.Boolean{Value: false}, true
+	case op == "||" && truthy:
+		return &value.Boolean{Value: true}, true
+	}
+	return nil, false
 }
 
 // InfixExpression process, but special case for string concatenation.
